@@ -323,21 +323,20 @@ MEMBER_FIXTURES_THOROUGH = ["hidden-groups.psd", "clipping-mask2.psd", "effects/
 
 def member_recipes(ctx, rng):
     """fixture layers of every kind + layers and documents made through the API"""
-    api = [("nest", "RGB", 8), ("board", "RGB", 8), ("two", "RGB", 8, "L"), ("small", "L", 8), ("hid", "RGB", 8),
-           ("clips", "RGB", 8), ("nest", "CMYK", 8)]
+    api = [("nest", "RGB", 8), ("board", "RGB", 8), ("two", "RGB", 8, "L"), ("small", "L", 8), ("clips", "CMYK", 8)]
     fx = list(T.FIXTURES) + MEMBER_FIXTURES
     if ctx.quick:
         fx = [f for f in fx if f != "artboard.psd"]        # (a large canvas; the Artboard class is in the `board` tree)
     else:
-        api += [("nest", "L", 16), ("dup", "RGB", 8), ("flat", "RGB", 32)]
+        api += [("hid", "RGB", 8), ("nest", "CMYK", 8), ("nest", "L", 16), ("dup", "RGB", 8), ("flat", "RGB", 32)]
         fx += MEMBER_FIXTURES_THOROUGH
     fx = [f for f in fx if (T.FIX / f).exists()]
     # + a seeded sample of the other fixture files of the checkout (all of them in the thorough tier)
     rest = sorted(str(p.relative_to(T.FIX)) for p in T.FIX.rglob("*.psd")
-                  if p.stat().st_size <= (300_000 if ctx.quick else 1_500_000))
+                  if p.stat().st_size <= 300_000)
     rest = [f for f in rest if f not in fx]
     rng.shuffle(rest)
-    fx += rest[:3] if ctx.quick else rest
+    fx += rest[:2] if ctx.quick else rest[:40]
     return api + [("fixture", f) for f in dict.fromkeys(fx)]
 
 
@@ -395,7 +394,7 @@ def member_sweep(ctx, rng, pairs):
                     continue
                 calls.append(("opaque", "m:" + p, i))
                 exercised.setdefault(cls.__name__, set()).add(T._member_name("m:" + p))
-        cap = 600 if ctx.quick else 4000
+        cap = 500 if ctx.quick else 3000
         if len(calls) > cap:
             # every member of every object itself; of the members of its views (`effects/0.color`, ...) a seeded sample
             deep = [k for k, c in enumerate(calls) if "." in c[1].split("(")[0]]
@@ -523,17 +522,20 @@ def run(ctx: core.Run):
     #     disabled) and at the end of every random walk
     stale = []        # (recipe, ops, [(sig, what, step)])
     deg_recipes = [("clips", "RGB", 8), ("nest", "RGB", 8), ("hid", "RGB", 8), ("board", "RGB", 8), ("two", "RGB", 8, "L"),
-                   ("small", "L", 8), ("clips", "L", 16), ("nest", "CMYK", 8), ("fixture", "mask-disabled.psd")]
+                   ("small", "L", 8), ("clips", "L", 16), ("fixture", "mask.psd"), ("fixture", "masks/2.psd")]
     if not ctx.quick:
-        deg_recipes += [("clips", "CMYK", 8), ("dup", "RGB", 8), ("nest", "RGB", 16), ("fixture", "clipping-mask2.psd"),
-                        ("fixture", "group.psd"), ("fixture", "hidden-groups.psd")]
+        deg_recipes += [("fixture", "mask-disabled.psd"), ("clips", "CMYK", 8), ("nest", "CMYK", 8), ("dup", "RGB", 8), ("nest", "RGB", 16),
+                        ("fixture", "masks3.psd"), ("fixture", "clipping-mask2.psd"), ("fixture", "group.psd"),
+                        ("fixture", "hidden-groups.psd")]
+    deg_recipes = [r for r in deg_recipes if r[0] != "fixture" or (T.FIX / r[1]).exists()]
     n_deg = 0
     i_deg = len(traces)
     for recipe in deg_recipes:
         for rep in range(1 if ctx.quick else 3):
             for fam, ops in D.degenerate_histories(recipe, rng):
-                if recipe[0] == "fixture" and not (fam.startswith("last-clipping") or fam.startswith("only-mask")):
-                    continue          # (large canvases: the families the API-built trees cannot express)
+                if recipe[0] == "fixture" and not (fam.startswith("only-mask") or (
+                        fam in ("last-clipping-layer-unclip", "last-clipping-layer-delete") or not ctx.quick)):
+                    continue          # (larger canvases: the families the API-built trees cannot express + two others)
                 n_deg += 1
                 ctx.hist("degenerate_end_states", fam)
                 traces.append(T.run_history(recipe, ops, check_inv=False, check_shadow=False))
@@ -546,7 +548,7 @@ def run(ctx: core.Run):
     for t in others:
         if not any(o[0] not in ("obs", "opaque") for o in t.ops):
             continue
-        if n_walk_end >= (260 if ctx.quick else 2500):
+        if n_walk_end >= (180 if ctx.quick else 2500):
             break
         plain = [o for o in t.ops if o[0] not in ("obs", "opaque")]
         n_walk_end += 1
